@@ -262,6 +262,17 @@ def run_impl(exe, args, text, timeout=1800, env=None):
     return lines, rc, err
 
 
+def san_summary(err):
+    """the informative part of a sanitizer report (SUMMARY line and the first frames), not the shadow-byte dump"""
+    if not err:
+        return ""
+    lines = err.split("\n")
+    keep = [l for l in lines if "ERROR:" in l or "SUMMARY:" in l or "runtime error" in l]
+    frames = [l.strip() for l in lines if l.strip().startswith("#")][:6]
+    out = " | ".join(keep[:3] + frames)
+    return out[:1500] if out else err[-600:]
+
+
 def first_diff(a, b):
     n = min(len(a), len(b))
     for i in range(n):
